@@ -25,11 +25,18 @@
    Part 1  one call site            validated_call_binds, validated_call_fails_only_in_a_default, ...
    Part 2  the validator's walk     every jump / choice at a position the renderer can report (GraphProofs
                                     passage_jump / passage_choice) of a compiled story is a validated call, and
-                                    parameter names of a compiled story are duplicate free
+                                    parameter names of a compiled story are duplicate free and never a positional
+                                    marker arg_<digits> (sig_ok)
    Part 3  the engine               enter_scope / goto_rec / choose / goto / init / step / run_all with the two
                                     sites made parameters (`…_b`), equal to the real functions in every state a
-                                    history can reach. *)
-From Coq Require Import String Ascii List Bool ZArith Arith Lia.
+                                    history can reach.
+   Part 6  (fixes F07d, F07e)       the compiler refuses a parameter named arg_<digits> and a call that repeats a
+                                    keyword, so for every validated call of a compiled story the keyword names are
+                                    distinct, positional_prefix holds of the engine's argument dict, and
+                                    bind_arguments = py_bind = py_call (Python's call rule stated on the call
+                                    itself) with no side condition: validated_call_binds_like_python_lemma,
+                                    parse_ok_jump_site_binds_like_python_lemma, parse_ok_offered_choice_..._lemma. *)
+From Coq Require Import String Ascii List Bool ZArith NArith Nnat Arith Lia.
 From Bardic Require Import PyStr Value Compiled Engine EngineBase EngineNav EngineUndo EngineHooks EngineReach
      EngineCheck EngineParams Graph GraphProofs StoryWfProofs.
 From Bardic Require Import Lex ParseBase ParseLine ParseMain ParseProofs ParseAllProofs StoryWfChoose.
@@ -255,7 +262,14 @@ Record fits (ps : list param) (n : nat) (ks : list string) : Prop := mkFits {
   fits_required : forall q, In q ps -> pdefault q = None ->
                     In (pname q) ks \/ In (pname q) (firstn n (map pname ps));      (* nothing missing *)
   fits_once : forall k, In k (firstn n (map pname ps)) -> ~ In k ks;              (* nothing supplied twice *)
-  fits_plain : ~ In "*" ks /\ ~ In "**" ks }.
+  fits_plain : ~ In "*" ks /\ ~ In "**" ks;
+  fits_norepeat : NoDup ks }.                                                     (* no keyword written twice (F07e) *)
+
+Lemma has_repeat_false_NoDup : forall l, has_repeat l = false -> NoDup l.
+Proof.
+  induction l as [|x r IH]; intros H; [constructor|]. simpl in H. apply orb_false_iff in H. destruct H as [H1 H2].
+  constructor; [apply str_in_not_In; exact H1|apply IH; exact H2].
+Qed.
 
 Section Validator.
 Variable pp : pyparse.
@@ -275,6 +289,7 @@ Proof.
     destruct (py_call_shape pp args) as [[n ks]|]; [|discriminate]. exists n, ks. split; [reflexivity|].
     destruct (negb (is_call args)); [discriminate|].
     destruct (str_in "*" ks || str_in "**" ks) eqn:Estar; [discriminate|].
+    destruct (has_repeat ks) eqn:Erep; [discriminate|].
     destruct (Nat.ltb (List.length (p0 :: pr)) n) eqn:Elen; [discriminate|].
     destruct (existsb (fun k => negb (str_in k (map pname (p0 :: pr)))) ks) eqn:Eunk; [discriminate|].
     unfold pbind in H.
@@ -296,6 +311,7 @@ Proof.
     + intros k Hk Hin. subst pos. apply in_rev in Hk.
       pose proof (existsb_false _ _ Edup k Hk) as Hf. apply str_in_not_In in Hf. contradiction.
     + split; apply str_in_not_In; assumption.
+    + apply has_repeat_false_NoDup. exact Erep.
 Qed.
 
 End Validator.
@@ -544,23 +560,33 @@ Proof.
 Qed.
 
 (* ---------------------------------------------------------------------------------------- *)
-(* Part 2b: parameter names of a compiled story are distinct (parse_passage_params, "Duplicate Parameter") *)
+(* Part 2b: parameter names of a compiled story are distinct (parse_passage_params, "Duplicate Parameter") and
+   none of them is a positional marker arg_<digits> (fix F07d, "Invalid Parameter Name ... is reserved") *)
+
+Definition unreserved (names : list string) : Prop := forall n, In n names -> is_positional_marker n = false.
+
+(* what the compiler guarantees of a signature *)
+Definition sig_ok (ps : list param) : Prop := NoDup (map pname ps) /\ unreserved (map pname ps).
 
 Definition ppp_inv (st : list param * bool * list string) : Prop :=
-  let '(acc, _, names) := st in names = map pname acc /\ NoDup names.
+  let '(acc, _, names) := st in names = map pname acc /\ NoDup names /\ unreserved names.
 
 Lemma ppp_step_inv st part st' : ppp_inv st -> ppp_step st part = POk st' -> ppp_inv st'.
 Proof.
-  destruct st as [[acc seen] names]. intros [Hn Hd] H. unfold ppp_step in H.
-  destruct (negb (nonempty (strip part))); [injection H as <-; split; assumption|].
+  destruct st as [[acc seen] names]. intros (Hn & Hd & Hu) H. unfold ppp_step in H.
+  destruct (negb (nonempty (strip part))); [injection H as <-; repeat split; assumption|].
   destruct (find_char (strip part) "=") as [e|]; cbv beta iota zeta in H.
   - destruct (negb (is_identifier _)); [discriminate|]. destruct (is_keyword _); [discriminate|].
+    destruct (is_positional_marker _) eqn:Em; [discriminate|].
     destruct (str_in _ names) eqn:Es; [discriminate|]. inversion H; subst. simpl. split; [reflexivity|].
-    constructor; [apply str_in_not_In; exact Es|exact Hd].
+    split; [constructor; [apply str_in_not_In; exact Es|exact Hd]|].
+    intros n [<-|Hin]; [exact Em|apply Hu; exact Hin].
   - destruct seen; [discriminate|].
     destruct (negb (is_identifier _)); [discriminate|]. destruct (is_keyword _); [discriminate|].
+    destruct (is_positional_marker _) eqn:Em; [discriminate|].
     destruct (str_in _ names) eqn:Es; [discriminate|]. inversion H; subst. simpl. split; [reflexivity|].
-    constructor; [apply str_in_not_In; exact Es|exact Hd].
+    split; [constructor; [apply str_in_not_In; exact Es|exact Hd]|].
+    intros n [<-|Hin]; [exact Em|apply Hu; exact Hin].
 Qed.
 
 Lemma ppp_loop_inv : forall parts st st', ppp_inv st -> ppp_loop parts st = POk st' -> ppp_inv st'.
@@ -569,15 +595,26 @@ Proof.
   apply pbind_ok in H. destruct H as [st1 [H1 H2]]. eapply IH; [|exact H2]. eapply ppp_step_inv; eauto.
 Qed.
 
-Lemma parse_passage_params_nodup s ps : parse_passage_params s = POk ps -> NoDup (map pname ps).
+Lemma parse_passage_params_sig s ps : parse_passage_params s = POk ps -> sig_ok ps.
 Proof.
-  unfold parse_passage_params. destruct (negb (nonempty s)); [intros H; inversion H; constructor|].
+  unfold parse_passage_params. destruct (negb (nonempty s)); [intros H; inversion H; split; [constructor|intros ? []]|].
   intros H. apply pbind_ok in H. destruct H as [[[acc seen] names] [H1 H2]]. inversion H2; subst.
-  assert (Hi : ppp_inv (acc, seen, names)) by (eapply ppp_loop_inv; [|exact H1]; split; [reflexivity|constructor]).
-  destruct Hi as [Hn Hd]. rewrite map_rev, <- Hn. apply NoDup_rev. exact Hd.
+  assert (Hi : ppp_inv (acc, seen, names)).
+  { eapply ppp_loop_inv; [|exact H1]. split; [reflexivity|]. split; [constructor|intros ? []]. }
+  destruct Hi as (Hn & Hd & Hu). split.
+  - rewrite map_rev, <- Hn. apply NoDup_rev. exact Hd.
+  - intros n Hin. rewrite map_rev, <- Hn in Hin. apply in_rev in Hin. apply Hu. exact Hin.
 Qed.
 
-Definition pp_nodup (p : ppassage) : Prop := NoDup (map pname (pp_params p)).
+Lemma parse_passage_params_nodup s ps : parse_passage_params s = POk ps -> NoDup (map pname ps).
+Proof. intros H. exact (proj1 (parse_passage_params_sig s ps H)). Qed.
+
+(* a parameter the compiler accepts is never named like a positional marker *)
+Lemma parse_passage_params_unreserved s ps :
+  parse_passage_params s = POk ps -> forall q, In q ps -> is_positional_marker (pname q) = false.
+Proof. intros H q Hq. apply (proj2 (parse_passage_params_sig s ps H)). apply in_map. exact Hq. Qed.
+
+Definition pp_nodup (p : ppassage) : Prop := sig_ok (pp_params p).
 
 Definition params_ok (st : pstate) : Prop :=
   (forall k p, In (k, p) (st_passages st) -> pp_nodup p) /\
@@ -669,9 +706,9 @@ Proof.
     destruct (parse_tags _) as [name tags].
     intros st' i' E. apply pbind_ok in E. destruct E as [[] [_ E]].
     apply pbind_ok in E. destruct E as [ps [Eps E]]. inversion E; subst. clear E.
-    assert (Hps : NoDup (map pname ps)).
-    { destruct (nonempty pstr); [|inversion Eps; constructor].
-      apply retag_ok in Eps. eapply parse_passage_params_nodup; eauto. }
+    assert (Hps : sig_ok ps).
+    { destruct (nonempty pstr); [|inversion Eps; split; [constructor|intros ? []]].
+      apply retag_ok in Eps. eapply parse_passage_params_sig; eauto. }
     split; simpl.
     - apply flush_params; auto.
     - intros cp Hc. inversion Hc; subst. exact Hps. }
@@ -698,14 +735,29 @@ End ParamsInv.
 Definition story_params_distinct (st : story) : Prop :=
   forall k p, In (k, p) (passages st) -> NoDup (map pname (params p)).
 
-Lemma parse_ok_params_distinct_lemma : forall pp is_call xs lines0 story,
-  parse pp is_call xs lines0 = POk story -> story_params_distinct story.
+(* fix F07d: no parameter of the story is named arg_<digits> *)
+Definition story_params_unreserved (st : story) : Prop :=
+  forall k p, In (k, p) (passages st) -> forall q, In q (params p) -> is_positional_marker (pname q) = false.
+
+Lemma parse_ok_params_sig_lemma : forall pp is_call xs lines0 story,
+  parse pp is_call xs lines0 = POk story -> forall k p, In (k, p) (passages story) -> sig_ok (params p).
 Proof.
   intros pp is_call xs lines0 story H k p Hin. apply parse_inv in H.
   destruct H as [fs [Hl [_ [_ [Hp _]]]]]. cbv zeta in Hl.
   apply parse_loop_params in Hl; [|split; [intros ? ? []|discriminate]].
   rewrite Hp in Hin. apply in_map_iff in Hin. destruct Hin as [[k0 p0] [E Hin]]. simpl in E. inversion E; subst.
   simpl. exact (flush_params fs Hl k p0 Hin).
+Qed.
+
+Lemma parse_ok_params_distinct_lemma : forall pp is_call xs lines0 story,
+  parse pp is_call xs lines0 = POk story -> story_params_distinct story.
+Proof. intros pp is_call xs lines0 story H k p Hin. exact (proj1 (parse_ok_params_sig_lemma _ _ _ _ _ H k p Hin)). Qed.
+
+Lemma parse_ok_params_unreserved_lemma : forall pp is_call xs lines0 story,
+  parse pp is_call xs lines0 = POk story -> story_params_unreserved story.
+Proof.
+  intros pp is_call xs lines0 story H k p Hin q Hq.
+  apply (proj2 (parse_ok_params_sig_lemma _ _ _ _ _ H k p Hin)). apply in_map. exact Hq.
 Qed.
 
 (* ---------------------------------------------------------------------------------------- *)
@@ -1617,4 +1669,464 @@ Proof.
   pose proof (extract_target_and_args_balanced (strip twa)) as Hb.
   destruct (extract_target_and_args (strip twa)) as [tg a]. simpl in Hb.
   intros H. apply pbind_ok in H. destruct H as [text [_ H]]. inversion H; subst. exact Hb.
+Qed.
+
+(* ---------------------------------------------------------------------------------------- *)
+(* Part 6: binding IS Python's call rule for every validated call of a compiled story (after fixes F07d / F07e).
+
+   The engine files positional argument number i under the key arg_<i> in the SAME dict as the keyword arguments and
+   _bind_arguments tests `param["name"] in arg_dict`.  Proofs/EngineParams.v bind_arguments_spec therefore carries the
+   side condition positional_prefix (the keys arg_<j> of the dict are exactly those of the positional arguments), and its
+   right-hand side py_bind still reads the positional arguments through those keys.  Two corners made the side
+   condition (and the reading "an association list is the dict") a genuine assumption:
+     F07d  a parameter named arg_<n>: the keyword / parameter name collides with a positional marker;
+     F07e  a repeated keyword `T(a=1, a=2)`: the Python dict keeps the LAST value, the model's association list
+           finds the FIRST.
+   With the compiler refusing both, for a validated call of a passage whose signature the compiler accepted
+     * the keyword names are distinct (so first = last = the only entry),
+     * no keyword name and no parameter name is a positional marker, arg_<i> is injective in i, hence
+       positional_prefix HOLDS of the dict the engine builds,
+     * bind_arguments = py_bind (the conclusion of bind_arguments_spec, no side condition) = py_call, Python's call
+       rule stated on the call itself (positional values and keyword pairs, no arg_<i> encoding). *)
+
+(* ---- 6a: decimal printing is injective, arg_<i> is recognised by is_positional_marker ---- *)
+
+Lemma digit_char_is_digit d : d < 10 -> is_digit (digit_char d) = true.
+Proof.
+  intros H. unfold is_digit, digit_char. rewrite nat_ascii_embedding by lia.
+  apply andb_true_intro. split; apply Nat.leb_le; lia.
+Qed.
+
+Lemma digit_char_inj a b : a < 10 -> b < 10 -> digit_char a = digit_char b -> a = b.
+Proof.
+  intros Ha Hb H. unfold digit_char in H. apply (f_equal nat_of_ascii) in H.
+  rewrite !nat_ascii_embedding in H by lia. lia.
+Qed.
+
+Lemma mod10_lt n : N.to_nat (n mod 10) < 10.
+Proof. pose proof (N.mod_lt n 10 ltac:(discriminate)) as H. lia. Qed.
+
+Lemma pdf_unfold f n acc :
+  pos_digits_fuel (S f) n acc =
+  if N.eqb (n / 10) 0 then String (digit_char (N.to_nat (n mod 10))) acc
+  else pos_digits_fuel f (n / 10) (String (digit_char (N.to_nat (n mod 10))) acc).
+Proof. reflexivity. Qed.
+
+Lemma pdf_digits : forall f n acc,
+  all_chars is_digit acc = true -> all_chars is_digit (pos_digits_fuel f n acc) = true.
+Proof.
+  induction f as [|f IH]; intros n acc H; [exact H|]. rewrite pdf_unfold.
+  assert (Hd : all_chars is_digit (String (digit_char (N.to_nat (n mod 10))) acc) = true).
+  { cbn [all_chars]. rewrite H, (digit_char_is_digit _ (mod10_lt n)). reflexivity. }
+  destruct (N.eqb (n / 10) 0); [exact Hd|apply IH; exact Hd].
+Qed.
+
+Lemma pdf_acc : forall f n acc, pos_digits_fuel f n acc = (pos_digits_fuel f n "" ++ acc)%string.
+Proof.
+  induction f as [|f IH]; intros n acc; [reflexivity|]. rewrite !pdf_unfold.
+  destruct (N.eqb (n / 10) 0); [reflexivity|].
+  rewrite (IH _ (String _ acc)), (IH _ (String _ "")). rewrite cb_sapp_cons. reflexivity.
+Qed.
+
+Lemma pdf_S_nonempty f n acc : pos_digits_fuel (S f) n acc <> ""%string.
+Proof.
+  rewrite pdf_unfold. destruct (N.eqb (n / 10) 0); [discriminate|].
+  rewrite pdf_acc. destruct (pos_digits_fuel f (n / 10) ""); discriminate.
+Qed.
+
+Lemma suff_step f n : (n < 2 ^ N.of_nat (S f))%N -> (n / 10 < 2 ^ N.of_nat f)%N.
+Proof.
+  intros H. rewrite Nat2N.inj_succ, N.pow_succ_r' in H. apply N.div_lt_upper_bound; [discriminate|].
+  set (x := (2 ^ N.of_nat f)%N) in *. lia.
+Qed.
+
+Lemma snoc_inj : forall a b c d, (a ++ String c "")%string = (b ++ String d "")%string -> a = b /\ c = d.
+Proof.
+  induction a as [|x a IH]; intros [|y b] c d H; simpl in H.
+  - injection H as ->. auto.
+  - injection H as _ H. destruct b; discriminate.
+  - injection H as _ H. destruct a; discriminate.
+  - injection H as -> H. destruct (IH _ _ _ H) as [-> ->]. auto.
+Qed.
+
+Lemma pdf_inj : forall f1 n1 f2 n2,
+  (n1 < 2 ^ N.of_nat f1)%N -> (n2 < 2 ^ N.of_nat f2)%N ->
+  pos_digits_fuel f1 n1 "" = pos_digits_fuel f2 n2 "" -> n1 = n2.
+Proof.
+  induction f1 as [|f1 IH]; intros n1 f2 n2 H1 H2 E.
+  - destruct f2 as [|f2]; [simpl in H1, H2; lia|].
+    exfalso. symmetry in E. exact (pdf_S_nonempty _ _ _ E).
+  - destruct f2 as [|f2]; [exfalso; exact (pdf_S_nonempty _ _ _ E)|].
+    pose proof (suff_step _ _ H1) as Q1. pose proof (suff_step _ _ H2) as Q2.
+    pose proof (mod10_lt n1) as M1. pose proof (mod10_lt n2) as M2.
+    pose proof (N.div_mod n1 10 ltac:(discriminate)) as D1. pose proof (N.div_mod n2 10 ltac:(discriminate)) as D2.
+    rewrite !pdf_unfold in E.
+    destruct (N.eqb (n1 / 10) 0) eqn:E1; destruct (N.eqb (n2 / 10) 0) eqn:E2.
+    + injection E as E. apply digit_char_inj in E; try assumption. apply N2Nat.inj in E.
+      apply N.eqb_eq in E1, E2. rewrite D1, D2, E1, E2, E. reflexivity.
+    + exfalso. rewrite (pdf_acc f2) in E.
+      change (String (digit_char (N.to_nat (n1 mod 10))) "") with ("" ++ String (digit_char (N.to_nat (n1 mod 10))) "")%string in E.
+      apply snoc_inj in E. destruct E as [E _]. apply N.eqb_neq in E2.
+      destruct f2 as [|f2]; [simpl in Q2; lia|]. symmetry in E. exact (pdf_S_nonempty _ _ _ E).
+    + exfalso. rewrite (pdf_acc f1) in E.
+      change (String (digit_char (N.to_nat (n2 mod 10))) "") with ("" ++ String (digit_char (N.to_nat (n2 mod 10))) "")%string in E.
+      apply snoc_inj in E. destruct E as [E _]. apply N.eqb_neq in E1.
+      destruct f1 as [|f1]; [simpl in Q1; lia|]. exact (pdf_S_nonempty _ _ _ E).
+    + rewrite (pdf_acc f1), (pdf_acc f2) in E. apply snoc_inj in E. destruct E as [E Ed].
+      apply IH in E; try assumption. apply digit_char_inj in Ed; try assumption. apply N2Nat.inj in Ed.
+      rewrite D1, D2, E, Ed. reflexivity.
+Qed.
+
+Lemma str_of_N_suff n : (n < 2 ^ N.of_nat (S (N.to_nat (N.log2 n))))%N.
+Proof.
+  rewrite Nat2N.inj_succ, N2Nat.id. destruct n as [|p]; [reflexivity|]. apply N.log2_spec. reflexivity.
+Qed.
+
+Lemma str_of_N_inj a b : str_of_N a = str_of_N b -> a = b.
+Proof. unfold str_of_N. apply pdf_inj; apply str_of_N_suff. Qed.
+
+Lemma arg_key_inj i j : arg_key i = arg_key j -> i = j.
+Proof.
+  unfold arg_key. intros H. cbn [append] in H. injection H as H. apply str_of_N_inj in H. apply Nat2N.inj. exact H.
+Qed.
+
+Lemma marker_arg x : is_positional_marker ("arg_" ++ x) = nonempty x && all_chars is_digit x.
+Proof. destruct x; reflexivity. Qed.
+
+Lemma arg_key_is_marker j : is_positional_marker (arg_key j) = true.
+Proof.
+  unfold arg_key. rewrite marker_arg. unfold str_of_N. rewrite pdf_digits by reflexivity.
+  destruct (pos_digits_fuel _ _ _) eqn:E; [exfalso; exact (pdf_S_nonempty _ _ _ E)|reflexivity].
+Qed.
+
+(* ---- 6b: the dict the engine builds ---- *)
+
+Lemma number_args_lookup : forall pos b j, lookup (arg_key (b + j)) (number_args b pos) = nth_error pos j.
+Proof.
+  induction pos as [|v r IH]; intros b j; [destruct j; reflexivity|].
+  cbn [number_args lookup]. change ("arg_" ++ str_of_N (N.of_nat b))%string with (arg_key b).
+  destruct (String.eqb (arg_key (b + j)) (arg_key b)) eqn:E.
+  - apply String.eqb_eq, arg_key_inj in E. assert (j = 0) by lia. subst j. reflexivity.
+  - destruct j as [|j]; [rewrite Nat.add_0_r, String.eqb_refl in E; discriminate|].
+    replace (b + S j) with (S b + j) by lia. cbn [nth_error]. apply IH.
+Qed.
+
+Lemma number_args_keys_markers : forall pos b k, In k (keys (number_args b pos)) -> is_positional_marker k = true.
+Proof.
+  induction pos as [|v r IH]; intros b k H; [destruct H|]. cbn [number_args keys map fst] in H.
+  destruct H as [<-|H]; [exact (arg_key_is_marker b)|]. eapply IH. exact H.
+Qed.
+
+Lemma engine_dict_keyword pos kws k :
+  is_positional_marker k = false -> lookup k (number_args 0 pos ++ kws) = lookup k kws.
+Proof.
+  intros H. rewrite lookup_app, lookup_none_keys; [reflexivity|].
+  intros Hin. apply number_args_keys_markers in Hin. congruence.
+Qed.
+
+Lemma engine_dict_positional pos kws j :
+  unreserved (map fst kws) -> lookup (arg_key j) (number_args 0 pos ++ kws) = nth_error pos j.
+Proof.
+  intros Hu. rewrite lookup_app. pose proof (number_args_lookup pos 0 j) as H. rewrite Nat.add_0_l in H. rewrite H.
+  destruct (nth_error pos j); [reflexivity|]. apply lookup_none_keys. intros Hin. apply Hu in Hin.
+  rewrite arg_key_is_marker in Hin. discriminate.
+Qed.
+
+(* the side condition of bind_arguments_spec, as a consequence *)
+Lemma engine_dict_positional_prefix pos kws :
+  unreserved (map fst kws) -> positional_prefix (number_args 0 pos ++ kws) (List.length pos).
+Proof.
+  intros Hu. split; intros j Hj; rewrite (engine_dict_positional pos kws j Hu).
+  - apply nth_error_Some. exact Hj.
+  - apply nth_error_None. exact Hj.
+Qed.
+
+Lemma nodup_keys_lookup {A} : forall (l : list (string * A)) k v,
+  NoDup (map fst l) -> In (k, v) l -> lookup k l = Some v.
+Proof.
+  induction l as [|[k1 v1] r IH]; intros k v Hnd Hin; [destruct Hin|]. cbn [lookup].
+  inversion Hnd as [|? ? Hn Hr]; subst. destruct Hin as [E|Hin].
+  - inversion E; subst. rewrite String.eqb_refl. reflexivity.
+  - destruct (String.eqb k k1) eqn:Ek; [|apply IH; assumption].
+    apply String.eqb_eq in Ek. subst. exfalso. apply Hn. apply (in_map fst) in Hin. exact Hin.
+Qed.
+
+(* ---- 6c: Python's call rule, stated on the call: parameter number i takes positional value i when there is one,
+   else the value of the keyword of its name, else its default evaluated with the earlier parameters visible, else
+   it is missing.  (Python also refuses a surplus positional value, an unknown keyword and a parameter given both
+   ways: a validated call has none of these, validated_call_no_surplus_no_unknown_lemma.) ---- *)
+
+Fixpoint py_call_at (orc : pyorc) (ctx0 : env) (ps : list param) (pos : list value) (kws : list (string * value))
+         (i : nat) (acc : env) : res env :=
+  match ps with
+  | [] => Ok acc
+  | p :: r =>
+      match nth_error pos i with
+      | Some v => py_call_at orc ctx0 r pos kws (S i) (set_key (pname p) v acc)
+      | None =>
+          match lookup (pname p) kws with
+          | Some v => py_call_at orc ctx0 r pos kws (S i) (set_key (pname p) v acc)
+          | None =>
+              match pdefault p with
+              | Some d => match o_eval orc (update ctx0 acc) d with
+                          | Ok v => py_call_at orc ctx0 r pos kws (S i) (set_key (pname p) v acc)
+                          | Exc e => Exc e
+                          end
+              | None => Exc ValueError
+              end
+          end
+      end
+  end.
+Definition py_call orc ctx0 ps pos kws := py_call_at orc ctx0 ps pos kws 0 [].
+
+Section BindCall.
+Variable orc : pyorc.
+Variable ctx0 : env.
+Variable pos : list value.
+Variable kws : list (string * value).
+Hypothesis Hu : unreserved (map fst kws).
+
+Lemma bind_call_gen : forall rest i acc,
+  (forall k, has_key k acc = true -> ~ In k (map pname rest)) ->
+  NoDup (map pname rest) -> unreserved (map pname rest) ->
+  bind_arguments orc ctx0 rest (number_args 0 pos ++ kws) (Nat.min i (List.length pos)) acc =
+  py_call_at orc ctx0 rest pos kws i acc.
+Proof.
+  induction rest as [|p r IH]; intros i acc Hacc Hnd Hur; [reflexivity|].
+  rewrite bind_arguments_cons. cbn [py_call_at].
+  inversion Hnd as [|? ? Hp Hr]; subst.
+  assert (Hacc' : forall v k, has_key k (set_key (pname p) v acc) = true -> ~ In k (map pname r)).
+  { intros v k Hk. apply has_key_set_key in Hk. destruct Hk as [->|Hk]; [exact Hp|].
+    intros Hin. apply (Hacc k Hk). right. exact Hin. }
+  assert (Hur' : unreserved (map pname r)) by (intros n Hn; apply Hur; right; exact Hn).
+  rewrite (engine_dict_positional pos kws _ Hu).
+  destruct (Nat.lt_ge_cases i (List.length pos)) as [Hi|Hi].
+  - rewrite Nat.min_l by lia. destruct (nth_error pos i) as [v|] eqn:E; [|apply nth_error_None in E; lia].
+    rewrite <- (IH (S i)); [f_equal; lia|apply Hacc'|exact Hr|exact Hur'].
+  - rewrite Nat.min_r by lia.
+    assert (E1 : nth_error pos (List.length pos) = None) by (apply nth_error_None; lia).
+    assert (E2 : nth_error pos i = None) by (apply nth_error_None; lia). rewrite E1, E2.
+    assert (Hk : forall v, bind_arguments orc ctx0 r (number_args 0 pos ++ kws) (List.length pos) (set_key (pname p) v acc) =
+                           py_call_at orc ctx0 r pos kws (S i) (set_key (pname p) v acc)).
+    { intros v. rewrite <- (IH (S i)); [f_equal; lia|apply Hacc'|exact Hr|exact Hur']. }
+    rewrite engine_dict_keyword by (apply Hur; left; reflexivity).
+    destruct (lookup (pname p) kws) as [v|].
+    + destruct (has_key (pname p) acc) eqn:Eh; [exfalso; apply (Hacc _ Eh); left; reflexivity|]. apply Hk.
+    + destruct (pdefault p) as [d|]; [|reflexivity]. destruct (o_eval orc (update ctx0 acc) d); [apply Hk|reflexivity].
+Qed.
+
+Lemma bind_is_py_call ps :
+  sig_ok ps -> bind_arguments orc ctx0 ps (number_args 0 pos ++ kws) 0 [] = py_call orc ctx0 ps pos kws.
+Proof.
+  intros [Hnd Hur]. apply (bind_call_gen ps 0 []); [intros k Hk; discriminate|exact Hnd|exact Hur].
+Qed.
+
+Lemma bind_is_py_bind ps :
+  bind_arguments orc ctx0 ps (number_args 0 pos ++ kws) 0 [] = py_bind orc ctx0 ps (number_args 0 pos ++ kws).
+Proof. apply (bind_arguments_spec orc ctx0 ps _ (List.length pos)). apply engine_dict_positional_prefix. exact Hu. Qed.
+
+End BindCall.
+
+(* what "binds as Python's call rule says" means for the arguments `a` of a call of tp *)
+Definition binds_like_python (orc : pyorc) (tp : passage) (a : string) : Prop :=
+  forall ctx pos kws, o_args orc ctx a = Ok (pos, kws) ->
+    bind_arguments orc ctx (params tp) (number_args 0 pos ++ kws) 0 [] = py_call orc ctx (params tp) pos kws /\
+    bind_arguments orc ctx (params tp) (number_args 0 pos ++ kws) 0 [] =
+      py_bind orc ctx (params tp) (number_args 0 pos ++ kws).
+
+(* ---- 6d: one call site ---- *)
+
+Section CallSitePython.
+Variable pp : pyparse.
+Variable is_call : string -> bool.
+Variable orc : pyorc.
+Variable passages : list (string * passage).
+Hypothesis Hsh : shape_agrees pp orc.
+Variables tg args : string.
+Variable tp : passage.
+Hypothesis Hval : validate_single_call pp is_call passages tg args = POk tt.
+Hypothesis Hj : String.eqb tg "@join" = false.
+Hypothesis Hl : lookup tg passages = Some tp.
+
+(* F07e: the keywords of a validated call are distinct, so the association list IS the dict: the value found for
+   a keyword is the value of the only entry with that name (first = last) *)
+Lemma validated_call_keywords_distinct_lemma ctx pos kws :
+  params tp <> [] -> o_args orc ctx args = Ok (pos, kws) ->
+  NoDup (map fst kws) /\ (forall k v, In (k, v) kws -> lookup k kws = Some v).
+Proof.
+  intros Hne Ho. destruct (validate_single_call_inv pp is_call passages tg args tp Hval Hj Hl)
+    as [[Hp _]|[_ (n & ks & Hs & Hf)]]; [contradiction|].
+  rewrite (Hsh _ _ _ _ Ho) in Hs. inversion Hs; subst n ks.
+  pose proof (fits_norepeat _ _ _ Hf) as Hnd. split; [exact Hnd|].
+  intros k v Hin. apply nodup_keys_lookup; assumption.
+Qed.
+
+Lemma validated_call_keywords_unreserved ctx pos kws :
+  params tp <> [] -> unreserved (map pname (params tp)) -> o_args orc ctx args = Ok (pos, kws) ->
+  unreserved (map fst kws).
+Proof.
+  intros Hne Hur Ho. destruct (validate_single_call_inv pp is_call passages tg args tp Hval Hj Hl)
+    as [[Hp _]|[_ (n & ks & Hs & Hf)]]; [contradiction|].
+  rewrite (Hsh _ _ _ _ Ho) in Hs. inversion Hs; subst n ks.
+  intros k Hk. apply Hur. apply (fits_known _ _ _ Hf). exact Hk.
+Qed.
+
+(* F07d: the side condition of bind_arguments_spec holds of the dict the engine builds *)
+Lemma validated_call_positional_prefix_lemma ctx pos kws :
+  params tp <> [] -> unreserved (map pname (params tp)) -> o_args orc ctx args = Ok (pos, kws) ->
+  positional_prefix (number_args 0 pos ++ kws) (List.length pos).
+Proof.
+  intros Hne Hur Ho. apply engine_dict_positional_prefix. eapply validated_call_keywords_unreserved; eauto.
+Qed.
+
+Lemma validated_call_binds_like_python_lemma : sig_ok (params tp) -> binds_like_python orc tp args.
+Proof.
+  intros Hsig ctx pos kws Ho. destruct (params tp) as [|p0 pr] eqn:Eps; [split; reflexivity|].
+  assert (Hu : unreserved (map fst kws)).
+  { eapply validated_call_keywords_unreserved; eauto; rewrite Eps; [discriminate|exact (proj2 Hsig)]. }
+  split; [apply bind_is_py_call; assumption|apply bind_is_py_bind; assumption].
+Qed.
+
+(* the dict goto really builds: empty for no / blank argument text, else the numbered values and the keywords *)
+Lemma validated_engine_dict_binds_like_python_lemma ctx ad :
+  sig_ok (params tp) -> engine_arg_dict orc ctx args = Ok ad ->
+  exists pos kws, ad = number_args 0 pos ++ kws /\
+    bind_arguments orc ctx (params tp) ad 0 [] = py_call orc ctx (params tp) pos kws /\
+    bind_arguments orc ctx (params tp) ad 0 [] = py_bind orc ctx (params tp) ad.
+Proof.
+  intros Hsig Hd.
+  assert (Hblank : exists pos kws, @nil (string * value) = number_args 0 pos ++ kws /\
+            bind_arguments orc ctx (params tp) [] 0 [] = py_call orc ctx (params tp) pos kws /\
+            bind_arguments orc ctx (params tp) [] 0 [] = py_bind orc ctx (params tp) []).
+  { exists [], []. split; [reflexivity|].
+    split; [apply (bind_is_py_call orc ctx [] []); [intros ? []|exact Hsig]|apply (bind_is_py_bind orc ctx [] []); intros ? []]. }
+  unfold engine_arg_dict in Hd. destruct (String.eqb args "").
+  - inversion Hd; subst ad. exact Hblank.
+  - unfold parse_args in Hd. destruct (all_space args); [inversion Hd; subst ad; exact Hblank|].
+    destruct (o_args orc ctx args) as [[pos kws]|e] eqn:Eo; [|discriminate]. inversion Hd; subst ad.
+    exists pos, kws. split; [reflexivity|]. exact (validated_call_binds_like_python_lemma Hsig ctx pos kws Eo).
+Qed.
+
+End CallSitePython.
+
+(* the hypothesis "no parameter is named like a positional marker" is needed (the compiler guarantees it since fix
+   F07d): with a signature T(a, arg_0=5) the call T(1) passes the validator, Python binds arg_0 = 5, and the engine
+   takes the positional value 1 filed under arg_0 for the keyword argument arg_0 *)
+Definition marker_sig : list param := [mkParam "a" None; mkParam "arg_0" (Some "5")].
+Definition marker_sig_passages : list (string * passage) := [("T", mkPassage "T" marker_sig [] [] [] [] [])].
+Definition five_orc : pyorc :=
+  mkOrc (fun _ _ => Ok (VInt 5)) (fun e _ => Ok e) (fun _ _ => Exc ValueError) (fun _ _ => Ok ([VInt 1], [])).
+
+Lemma unreserved_names_needed :
+  validate_single_call one_arg_pp (fun _ => true) marker_sig_passages "T" "1" = POk tt /\
+  shape_agrees one_arg_pp five_orc /\ NoDup (map pname marker_sig) /\
+  bind_arguments five_orc [] marker_sig (number_args 0 [VInt 1] ++ []) 0 [] = Ok [("a", VInt 1); ("arg_0", VInt 1)] /\
+  py_call five_orc [] marker_sig [VInt 1] [] = Ok [("a", VInt 1); ("arg_0", VInt 5)].
+Proof.
+  split; [vm_compute; reflexivity|]. split; [intros ctx args pos kws H; inversion H; subst; reflexivity|].
+  split; [repeat constructor; simpl; intuition discriminate|]. split; vm_compute; reflexivity.
+Qed.
+
+(* ---- 6e: every call site of a story whose signatures the compiler accepted ---- *)
+
+Definition story_sigs_ok (st : story) : Prop := forall k p, In (k, p) (passages st) -> sig_ok (params p).
+
+Section StoryPython.
+Variable pp : pyparse.
+Variable is_call : string -> bool.
+Variable orc : pyorc.
+Variable ctxkeys : list string.
+Variable st : story.
+Hypothesis Hsh : shape_agrees pp orc.
+Hypothesis Hsig : story_sigs_ok st.
+Hypothesis Hval : story_calls_validated pp is_call st.
+
+Lemma jump_site_binds_like_python_lemma pid p tg a :
+  get_passage st pid = Some p -> passage_jump p tg a ->
+  exists tp, get_passage st tg = Some tp /\ binds_like_python orc tp a.
+Proof.
+  intros Hp Hj. destruct (Hval _ _ (get_passage_in _ _ _ Hp)) as [_ HJ].
+  destruct (HJ _ _ Hj) as [Hnj Hc]. simpl in Hnj, Hc.
+  destruct (validate_single_call_target _ _ _ _ _ Hc) as [->|Hk]; [discriminate|].
+  unfold has_key in Hk. destruct (lookup tg (passages st)) as [tp|] eqn:El; [|discriminate].
+  exists tp. split; [exact El|].
+  eapply (validated_call_binds_like_python_lemma pp is_call orc (passages st) Hsh tg a tp); eauto.
+  eapply Hsig. apply lookup_In. exact El.
+Qed.
+
+Lemma offered_choice_binds_like_python_lemma e rc :
+  reach orc ctxkeys st e -> In rc (o_choices (current_out e)) -> ch_target (rc_choice rc) <> "@join" ->
+  exists tp, get_passage st (ch_target (rc_choice rc)) = Some tp /\
+             binds_like_python orc tp (ch_args (rc_choice rc)).
+Proof.
+  intros Hr Hin Hnj. destruct (reach_offered_positions_lemma orc ctxkeys st e rc Hr Hin) as (pid & p & k & Hp & Hc).
+  destruct (Hval _ _ (get_passage_in _ _ _ Hp)) as [HC _]. specialize (HC _ _ Hc). unfold choice_ok in HC.
+  destruct (validate_single_call_target _ _ _ _ _ HC) as [E|Hk]; [contradiction|].
+  unfold has_key in Hk. destruct (lookup (ch_target (rc_choice rc)) (passages st)) as [tp|] eqn:El; [|discriminate].
+  exists tp. split; [exact El|].
+  eapply (validated_call_binds_like_python_lemma pp is_call orc (passages st) Hsh _ _ tp); eauto.
+  - apply String.eqb_neq. exact Hnj.
+  - eapply Hsig. apply lookup_In. exact El.
+Qed.
+
+End StoryPython.
+
+(* ---- 6f: every story the compiler model returns (arbitrary extractors and oracles) ---- *)
+
+Lemma parse_ok_jump_site_binds_like_python_lemma : forall pp is_call xs lines0 story,
+  parse pp is_call xs lines0 = POk story ->
+  forall orc, shape_agrees pp orc ->
+  forall pid p tg a, get_passage story pid = Some p -> passage_jump p tg a ->
+  exists tp, get_passage story tg = Some tp /\
+    forall ctx pos kws, o_args orc ctx a = Ok (pos, kws) ->
+      bind_arguments orc ctx (params tp) (number_args 0 pos ++ kws) 0 [] = py_call orc ctx (params tp) pos kws /\
+      bind_arguments orc ctx (params tp) (number_args 0 pos ++ kws) 0 [] =
+        py_bind orc ctx (params tp) (number_args 0 pos ++ kws).
+Proof.
+  intros pp is_call xs lines0 story H orc Hsh.
+  apply (jump_site_binds_like_python_lemma pp is_call orc story Hsh (parse_ok_params_sig_lemma _ _ _ _ _ H)
+           (parse_ok_calls_validated_lemma _ _ _ _ _ H)).
+Qed.
+
+Lemma parse_ok_offered_choice_binds_like_python_lemma : forall pp is_call xs lines0 story,
+  parse pp is_call xs lines0 = POk story ->
+  forall orc ctxkeys, shape_agrees pp orc ->
+  forall e rc, reach orc ctxkeys story e -> In rc (o_choices (current_out e)) ->
+  ch_target (rc_choice rc) <> "@join" ->
+  exists tp, get_passage story (ch_target (rc_choice rc)) = Some tp /\
+    forall ctx pos kws, o_args orc ctx (ch_args (rc_choice rc)) = Ok (pos, kws) ->
+      bind_arguments orc ctx (params tp) (number_args 0 pos ++ kws) 0 [] = py_call orc ctx (params tp) pos kws /\
+      bind_arguments orc ctx (params tp) (number_args 0 pos ++ kws) 0 [] =
+        py_bind orc ctx (params tp) (number_args 0 pos ++ kws).
+Proof.
+  intros pp is_call xs lines0 story H orc ctxkeys Hsh.
+  apply (offered_choice_binds_like_python_lemma pp is_call orc ctxkeys story Hsh
+           (parse_ok_params_sig_lemma _ _ _ _ _ H) (parse_ok_calls_validated_lemma _ _ _ _ _ H)).
+Qed.
+
+(* the keyword names of an offered choice's call (and of a jump's) are distinct and none is a positional marker:
+   the argument dict of every call a compiled story can make satisfies positional_prefix *)
+Lemma parse_ok_offered_choice_dict_lemma : forall pp is_call xs lines0 story,
+  parse pp is_call xs lines0 = POk story ->
+  forall orc ctxkeys, shape_agrees pp orc ->
+  forall e rc, reach orc ctxkeys story e -> In rc (o_choices (current_out e)) ->
+  ch_target (rc_choice rc) <> "@join" ->
+  exists tp, get_passage story (ch_target (rc_choice rc)) = Some tp /\
+    forall ctx pos kws, params tp <> [] -> o_args orc ctx (ch_args (rc_choice rc)) = Ok (pos, kws) ->
+      NoDup (map fst kws) /\ (forall k v, In (k, v) kws -> lookup k kws = Some v) /\
+      positional_prefix (number_args 0 pos ++ kws) (List.length pos).
+Proof.
+  intros pp is_call xs lines0 story H orc ctxkeys Hsh e rc Hr Hin Hnj.
+  pose proof (parse_ok_calls_validated_lemma _ _ _ _ _ H) as Hval.
+  destruct (reach_offered_positions_lemma orc ctxkeys story e rc Hr Hin) as (pid & p & k & Hp & Hc).
+  destruct (Hval _ _ (get_passage_in _ _ _ Hp)) as [HC _]. specialize (HC _ _ Hc). unfold choice_ok in HC.
+  destruct (validate_single_call_target _ _ _ _ _ HC) as [E|Hk]; [contradiction|].
+  unfold has_key in Hk. destruct (lookup (ch_target (rc_choice rc)) (passages story)) as [tp|] eqn:El; [|discriminate].
+  exists tp. split; [exact El|]. intros ctx pos kws Hne Ho.
+  assert (Hj : String.eqb (ch_target (rc_choice rc)) "@join" = false) by (apply String.eqb_neq; exact Hnj).
+  destruct (validated_call_keywords_distinct_lemma pp is_call orc (passages story) Hsh _ _ tp HC Hj El ctx pos kws Hne Ho)
+    as [Hnd Hlk].
+  split; [exact Hnd|]. split; [exact Hlk|].
+  eapply (validated_call_positional_prefix_lemma pp is_call orc (passages story) Hsh _ _ tp HC Hj El); eauto.
+  exact (proj2 (parse_ok_params_sig_lemma _ _ _ _ _ H _ _ (lookup_In _ _ _ _ El))).
 Qed.
